@@ -165,6 +165,12 @@ def handleTick : Handler := fun j a => do
         a := a.violationSig "C06:approved-request-rejudged-on-retry" j.compress
       if oSteps.contains "switchFailed" && jIntOr after "run_count" (-1) != sw.runCount + 1 then
         a := a.violationSig "C06:failed-attempt-not-counted-once" j.compress
+    -- exactly one terminal outcome: a request the operator aborted, or the daemon recorded as rejected, in this iteration
+    -- must not be pending afterwards
+    if jBoolOr after "operator_aborted" false && swPresentAfter && dcsFault == 0 then
+      a := a.violationSig "C06:aborted-request-comes-back" j.compress
+    if jBoolOr after "rejected_written" false && swPresentAfter && dcsFault == 0 then
+      a := a.violationSig "C06:rejected-request-still-pending" j.compress
     if oSteps.contains "issueFailover" && jStrOr obs "create_switch_res" "" == "ok" then
       a := a.violationSig "C06:request-filed-over-pending-one" j.compress
     if oSteps.contains "switchFinished" then
